@@ -20,7 +20,9 @@ def extra_cases(ctx, rng):
                 continue                   # this read-only directory does not exist at all
             for k in keys:
                 if rng.below(2):
-                    L.append(G.plant(G.key_path(r, "r%d" % i, k, rng.below(2)), rng.choice(["A", "B"]), mtime=G.T0 + rng.below(50)))
+                    # some entries carry a modification time far in the future (clock skew between writers)
+                    mt = (4102444800 * 10**9 + rng.below(50)) if rng.below(4) == 0 else (G.T0 + rng.below(50))
+                    L.append(G.plant(G.key_path(r, "r%d" % i, k, rng.below(2)), rng.choice(["A", "B"]), mtime=mt))
         L.append("snap")
         for _ in range(12):
             k = rng.choice(keys + [(".bad", 1, 1), ("%e", 1, 1), ("a/b", 2, 2)])
@@ -101,7 +103,9 @@ def run(ctx):
                                            "classification": {"kind": "ro-snapshot", "change": "directory"}, "replay": {"kind": "history", "scenario": lines}})
                     continue
                 same = fa[2] == fb[2] and fa[3] == fb[3] and fa[4] == fb[4] and fa[5] == fb[5] and fa[7] == fb[7]
-                if not same or int(fb[6]) < int(fa[6]):
+                # the access time is the one attribute that may change (it is SET to the current time by a
+                # touch, which moves it backwards on an entry dated in the future by a skewed clock)
+                if not same:
                     violations.append({"what": "%s under a read-only root changed beyond its access time: %s -> %s" % (p, fa[2:8], fb[2:8]),
                                        "classification": {"kind": "ro-snapshot", "change": "attributes"}, "replay": {"kind": "history", "scenario": lines}})
         if len(samples) < 4 and touched and desc["op"][0] == "history":
@@ -112,7 +116,7 @@ def run(ctx):
         if k not in seen:
             seen.add(k); uniq.append(v)
     cov = {"evaluations": len(res), "distinct_nontrivial": nontriv,
-           "rule": "the C13 configuration matrix restricted to stacks with read-only levels (%s) plus random stacked histories (12 operations each, invalid names and missing read-only directories included): no call other than open/stat/fstat/read/lseek/close and atime-only futimens may name a path under a read-only root; recursive before/after snapshots of the read-only roots equal up to st_atime, which may only advance. Non-trivial = some call named a path under a read-only root." % ("sampled" if ctx.quick() else "full"),
+           "rule": "the C13 configuration matrix restricted to stacks with read-only levels (%s) plus random stacked histories (12 operations each, invalid names and missing read-only directories included): no call other than open/stat/fstat/read/lseek/close and atime-only futimens may name a path under a read-only root; recursive before/after snapshots of the read-only roots equal up to st_atime. Non-trivial = some call named a path under a read-only root." % ("sampled" if ctx.quick() else "full"),
            "samples": samples, "traces_validated_against_impl": agree}
     if not ctx.quick():
         rc, o = C.coqchk(PROPS)
